@@ -18,6 +18,7 @@ type Proxy struct {
 	up, down  int64                 // total bytes forwarded (client->target, target->client)
 	cutsUp    []int64               // cut all connections when `up` reaches one of these totals
 	cutsDown  []int64
+	holdUp, holdDown bool
 	holdUntil time.Time // black hole: bytes are held back until then
 	refuse    bool      // refuse (close at once) new connections
 	nConns    int
@@ -85,6 +86,24 @@ func (p *Proxy) pipe(src, dst net.Conn, upDir bool) {
 						continue
 					}
 					break
+				}
+				// honour a hold of this direction: the bytes wait here; a cut discards them
+				for {
+					p.mu.Lock()
+					held := (upDir && p.holdUp) || (!upDir && p.holdDown)
+					_, a1 := p.conns[src]
+					_, a2 := p.conns[dst]
+					alive := a1 || a2
+					p.mu.Unlock()
+					if !held {
+						break
+					}
+					if !alive {
+						src.Close()
+						dst.Close()
+						return
+					}
+					time.Sleep(2 * time.Millisecond)
 				}
 				// forward up to the next cut point
 				p.mu.Lock()
@@ -162,6 +181,18 @@ func (p *Proxy) CutAfter(dir string, at int64) {
 func (p *Proxy) Blackhole(d time.Duration) {
 	p.mu.Lock()
 	p.holdUntil = time.Now().Add(d)
+	p.mu.Unlock()
+}
+
+// HoldDir holds back (or releases) everything travelling in one direction ("up" = towards the target). Bytes held
+// when the connection is cut are lost, as on a path that loses one direction before the connection breaks.
+func (p *Proxy) HoldDir(dir string, on bool) {
+	p.mu.Lock()
+	if dir == "up" {
+		p.holdUp = on
+	} else {
+		p.holdDown = on
+	}
 	p.mu.Unlock()
 }
 
